@@ -5,11 +5,14 @@ SPEC = dict(
     proof_files=['Proofs/Faults.v', 'Drv/Faults.v', 'Proofs/Restore.v'],
     tie_vo=[],
     drivers=[dict(name='faults', drv_mod='Drv.Faults', drv_file='Drv/Faults.v', shard=300,
-                  timeout={'quick': 900, 'thorough': 3000})],
+                  timeout={'quick': 900, 'thorough': 3000}),
+             dict(name='daemon', drv_mod='Drv.Daemon', drv_file='Drv/Daemon.v', shard=50,
+                  args={'quick': ['n=16'], 'thorough': ['n=200']}, timeout={'quick': 600, 'thorough': 3000})],
     rule='faults: closed loops of 6 cycles through the real updateSensor / measureRpm / UpdateFanSpeed (+ restorePwmEnabled on error) for '
          'hwmon/file/cmd fan x hwmon/file/cmd sensor x {linear, PID, function(max) of both, nested function with a PID leaf, nested function of linear leaves}; '
          'every single fault (kind x component x cycle; quick: every (combination, fault) at a seeded cycle plus random fill-up), sampled pairs, fault storms, '
-         'stalled never-stop fans, command timeouts. Non-trivial = at least one fault in the plan; distinct = distinct case terms.',
+         'stalled never-stop fans, command timeouts. daemon: process-level runs of the real RunDaemon (see C03) where a panic would be in another goroutine '
+         '(scenario 5: a controller fails its initialisation; 6/7: the sensor of a PID curve fails while regulating). Non-trivial = at least one fault in the plan; distinct = distinct case terms.',
     assumptions=[
         'oracle: cy_stall (a never-stop fan found stalled at max PWM in that cycle) is taken from the observation; the numeric decision is the business of C10',
         'valid_config: function curves have at least one member and the PWM map is not empty (C11 is about configurations that violate this)',
